@@ -6,7 +6,7 @@ import vlib
 from pure_common import run_pure, replay as pure_replay
 import http_common
 
-PROPS = ["KrillModel.Props.C16", "KrillModel.Props.C16Src"]
+PROPS = ["KrillModel.Props.C16", "KrillModel.Props.C16Src", "KrillModel.Props.C16SrcFns"]
 RELEVANT = {"no_panic", "validated_arith_total", "covers_total"}
 RULE = ("stream pure, set c16: (a) EXHAUSTIVE over the finite domain family x prefix length x max length (None, 0..255): "
         "max_length_valid / effective_max_length / set_explicit_max_length and nr_of_specific_prefixes under catch_unwind, "
@@ -37,7 +37,7 @@ def census_diff():
 
 def check(ctx):
     # panic-site census of krill's own code, regenerated from /repo/src (theorem all_panic_sites_reviewed over it)
-    vlib.translate(ctx, [("panic_sites", "PanicSites.lean")])
+    vlib.translate(ctx, [("panic_sites", "PanicSites.lean"), ("pure_fns:C16", "PureFns.lean")])
     try:
         d = census_diff()
         if d:
@@ -113,5 +113,5 @@ MANIFEST = {
             "seems_global_uri (authorities of a client CSR's SIA URIs) has a checked model with seems_global_uri_total. The census "
             "audit found F-C16-5 / F-C16-6 (a handle with a backslash formatted into a URI and unwrapped; replayed on the real "
             "daemon, reported).",
-    "technique": "Lean 4 proof (checked-arithmetic model, totality theorems) + source translator (panic-site census of krill's own code against a hand-reviewed table) + exhaustive finite-domain correspondence + mutation sampling of decoders and of the running daemon",
+    "technique": "Lean 4 proof (checked-arithmetic model, totality theorems) + source translators (panic-site census of krill's own code against a hand-reviewed table; bodies of RoaPayload::effective_max_length / max_length_valid / nr_of_specific_prefixes = the checked model) + exhaustive finite-domain correspondence + mutation sampling of decoders and of the running daemon",
 }
